@@ -266,13 +266,21 @@ func BuiltinUniverses() []*Universe {
 			}}),
 		// Free transactions and the rate limiter, an immature coinbase spend
 		// (maturity 2), a transaction spending more than its inputs.
-		defaults(Universe{Name: "free", NFund: 2, Maturity: 2, SlotParent: []int{0, 1}, MaxOrphans: 1, MaxBlockTxs: 1, Standalone: false,
+		defaults(Universe{Name: "free", NFund: 2, Maturity: 2, SlotParent: []int{0}, MaxOrphans: 1, MaxBlockTxs: 1, Standalone: false,
 			Txs: []TxSpec{
 				{Ins: ins(fund(0)), Fee: 0},
 				{Ins: ins(fund(1)), Fee: 50, VSize: 120},
 				{Ins: ins(out(1, 0)), Fee: 0},
 				{Ins: ins(baseCB()), Fee: 1000},
 				{Ins: ins(out(2, 0)), Fee: 1000, Cls: "negfee"},
+			}}),
+		// Two-deep reorganisation: t1 and its child t2 can be confirmed in
+		// successive blocks, t3 conflicts with t1; branch 3->4->5 replaces 1->2.
+		defaults(Universe{Name: "reorg2", NFund: 1, SlotParent: []int{0, 1, 0, 3, 4}, MaxOrphans: 1, MaxBlockTxs: 1, MaxReorgTxs: 1, Standalone: false,
+			Txs: []TxSpec{
+				{Ins: ins(fund(0)), Fee: 1000},
+				{Ins: ins(out(1, 0)), Fee: 1000},
+				{Ins: ins(fund(0)), Fee: 3000},
 			}}),
 		// Mining shapes: a free transaction, witness transactions (fund coin 2 and
 		// output 1 of t1 are P2WSH), a low fee rate, a dependency chain.
@@ -317,8 +325,7 @@ func EvictionBoundary() *Universe {
 }
 
 // RandomUniverse draws a small universe from the seed.
-func RandomUniverse(rng *rand.Rand, name string) *Universe {
-	n := 4
+func RandomUniverse(rng *rand.Rand, name string, n int) *Universe {
 	u := Universe{Name: name, NFund: 2, MaxBlockTxs: 1, MaxReorgTxs: 1, WitCoins: map[Outpoint]bool{}}
 	switch rng.Intn(3) {
 	case 0:
